@@ -114,7 +114,7 @@ Proof.
   destruct (run_model c None) as [o w] eqn:Er0.
   pose proof (dest_good_model c None o w Hdp Hpd Er0) as Hgood.
   pose proof Er0 as Er. unfold run_model in Er.
-  apply andb_true_iff in Hrun as [Hrun Hf]. apply andb_true_iff in Hrun as [Ho Ht].
+  apply andb_true_iff in Hrun as [Hrun Hint]. apply andb_true_iff in Hrun as [Hrun Hf]. apply andb_true_iff in Hrun as [Ho Ht].
   apply trace_eqb_eq in Ht.
   destruct (files_agree_dest _ _ _ _ Hf Hind) as [Hd _].
   destruct (files_agree_dest _ _ _ _ Hf Hinp) as [_ Hp].
